@@ -68,6 +68,7 @@ class Report:
                           'undecided': f.get('undecided'), 'bounded_in_D': f.get('bounded_in_D'), 'wall_s': f.get('wall_s'), 'solver_s': round(sum(o['seconds'] for o in f['obligations']), 2),
                           'failed': [o['name'] for o in f['obligations'] if o['verdict'] != 'unsat']})
         for s in self.structural:
+            if s['verdict'] in ('skipped', 'no-pullback'): continue          # not an obligation: the recording site cannot run / has no pullback (a raising sweep is allowed)
             obligations += 1; discharged += 1 if s['verdict'] == 'holds' else 0
         bd = [f for f in self.functions if f.get('bounded_in_D')]
         if bd:
